@@ -371,6 +371,47 @@ class Interp:
             if p.sort.cls:
                 self.st.assume(z3.Implies(z3.Not(v.terms[0]), self.eng.isinstance_formula(p.t, p.sort.cls)))
 
+    def assume_heap_closure(self):
+        """well-formed entry heap: whatever an allocated object references (directly, through a list or through dict values /
+        lists in dict values) is allocated too.  One quantified fact per declared reference-carrying field."""
+        alloc = self.st.alloc
+        r = z3.Const("hc_r", S.RefS)
+        for cname, d in self.m.classes.items():
+            for fname, so in d.fields.items():
+                key = (cname, fname)
+                arrs = self.heap_arrays(self.st, key, so)
+                val = so.select(arrs, r)
+                facts = self._closure_facts(val, alloc)
+                for bv, f in facts:
+                    self.st.assume(z3.ForAll([r] + bv, z3.Implies(z3.Select(alloc, r), f)))
+
+    def _closure_facts(self, val, alloc):
+        so = val.sort
+        if isinstance(so, S.TRef):
+            return [([], z3.Select(alloc, val.t))]
+        if isinstance(so, S.TOpt) and isinstance(so.inner, S.TRef):
+            return [([], z3.Implies(z3.Not(val.terms[0]), z3.Select(alloc, so.payload(val).t)))]
+        if isinstance(so, S.TList):
+            i = z3.Int(S.fresh_name("hci"))
+            inner = self._closure_facts(so.at(val, i), alloc)
+            return [([i] + bv, z3.Implies(z3.And(i >= 0, i < val.terms[0]), f)) for bv, f in inner]
+        if isinstance(so, S.TDict):
+            k = so.key.fresh("hck")
+            inner = self._closure_facts(so.get(val, k), alloc)
+            out = [(list(k.terms) + bv, z3.Implies(so.has(val, k), f)) for bv, f in inner]
+            if isinstance(so.key, S.TRef):
+                out.append((list(k.terms), z3.Implies(so.has(val, k), z3.Select(alloc, k.t))))
+            return out
+        if isinstance(so, S.TSet) and isinstance(so.elem, S.TRef):
+            x = so.elem.fresh("hcx")
+            return [(list(x.terms), z3.Implies(so.mem(val, x), z3.Select(alloc, x.t)))]
+        if isinstance(so, S.TTuple):
+            out = []
+            for n in range(len(so.elems)):
+                out += self._closure_facts(so.item(val, n), alloc)
+            return out
+        return []
+
     def havoc_alloc(self, tag):
         """callees and loop iterations may allocate: the allocated set only grows"""
         na = z3.Const(S.fresh_name(f"alloc.{tag}"), z3.ArraySort(S.RefS, z3.BoolSort()))
@@ -587,6 +628,7 @@ class Interp:
             self.st.locals = env
             self.old_st = self.st.copy()
             # preconditions
+            self.assume_heap_closure()
             for r in fs.requires:
                 self.st.assume(self.ev_spec(r))
             self.bind_ghosts(fs, self.st.locals)
